@@ -11,6 +11,11 @@ Dcg.Model.Graphql — the GraphQL front end (`parser/graphql.py`).
                          field is not required
 * `parseObjectLike`      `parse_object_like`: one member per field, then the `__typename` member,
                          interfaces as base classes
+* `resolveMember`        which declaration of a member a class ends up with: its own, else the first
+                         one along the linearised bases (Python attribute / annotation lookup)
+* `PyVal`, `getDefault`, `parseFieldD`
+                         the default value of an input field: `_get_default` and what `parse_field`
+                         hands to the member (`default=`, `has_default=`)
 -/
 namespace Dcg.Model.Graphql
 
@@ -121,5 +126,98 @@ def parseObjectLike (forceOptional : Bool) (name : List Char) (fields : List (Li
   { name := name,
     members := fields.map (fun f => .field f.1 (parseField forceOptional f.2)) ++ [.typename name],
     bases := interfaces }
+
+/-! ### which declaration of a member a class has
+
+`class T(A, B)`: Python (and pydantic, dataclasses, TypedDict, which all collect annotations base by
+base so that a later class in the MRO is overridden by an earlier one) takes the declaration of a
+member from `T` itself when `T` declares it, otherwise from the FIRST class along the linearised
+bases that declares it. -/
+
+def Member.name : Member → List Char
+  | .field n _ => n
+  | .typename _ => "typename__".toList
+
+/-- the first declaration of a member called `n` in a class body -/
+def lookupMember : List Member → List Char → Option Member
+  | [], _ => none
+  | m :: ms, n => if m.name = n then some m else lookupMember ms n
+
+/-- `own`: the members the class statement of `T` declares; `mro`: the member lists of the classes
+after `T` in its method resolution order -/
+def resolveMember (own : List Member) (mro : List (List Member)) (n : List Char) : Option Member :=
+  match lookupMember own n with
+  | some m => some m
+  | none => mro.findSome? (fun ms => lookupMember ms n)
+
+/-! ### default values of input fields
+
+graphql-core hands the default of an input field over as a Python value (`value_from_ast`): `None`
+for `null`, `bool` / `int` / `float` / `str` for the scalars (an enum value is the `str` of its name),
+a `list`, a `dict` for an input-object literal — or the sentinel `Undefined` when the SDL writes no
+default. A float travels as its `repr` and is never compared numerically. -/
+
+inductive PyVal where
+  | none
+  | bool (b : Bool)
+  | int (i : Int)
+  | float (repr : List Char)
+  | str (s : List Char)
+  | list (xs : List PyVal)
+  | dict (kvs : List (List Char × PyVal))
+  deriving Repr, Inhabited
+
+def PyVal.isNone : PyVal → Bool
+  | .none => true
+  | _ => false
+
+/-- `bool(v)` of Python for these values (the floats whose `repr` is a zero are the falsy ones) -/
+def PyVal.truthy : PyVal → Bool
+  | .none => false
+  | .bool b => b
+  | .int i => i != 0
+  | .float r => !(r == "0.0".toList || r == "-0.0".toList)
+  | .str s => !s.isEmpty
+  | .list xs => !xs.isEmpty
+  | .dict kvs => !kvs.isEmpty
+
+/-- `GraphQLInputField.default_value` -/
+inductive DefaultValue where
+  | undefined
+  | value (v : PyVal)
+  deriving Repr, Inhabited
+
+/-- `_get_default(field, final_data_type, required)`:
+```
+if isinstance(field, graphql.GraphQLInputField):
+    if field.default_value == graphql.pyutils.Undefined: return None
+    return field.default_value
+… return None
+```
+`isInputField`: the field is a `GraphQLInputField` (a field of an input object); the fields of object
+and interface types have no default. -/
+def getDefault (isInputField : Bool) (d : DefaultValue) : PyVal :=
+  if isInputField then
+    match d with
+    | .undefined => .none
+    | .value v => v
+  else .none
+
+/-- what `parse_field` gives the member besides its type: `default=default`,
+`has_default=default is not None` -/
+structure FieldD where
+  ir : FieldIR
+  default : PyVal
+  hasDefault : Bool
+  deriving Repr, Inhabited
+
+def parseFieldD (forceOptional isInputField : Bool) (t : GType) (d : DefaultValue) : FieldD :=
+  let v := getDefault isInputField d
+  { ir := parseField forceOptional t, default := v, hasDefault := !v.isNone }
+
+/-- the default the generated member is expected to show: a required member has none; a member that
+is not required shows `default` (which is `None` when the SDL gives no default or `null`) -/
+def FieldD.memberDefault (f : FieldD) : Option PyVal :=
+  if f.ir.required then none else some f.default
 
 end Dcg.Model.Graphql
